@@ -35,6 +35,7 @@ ENV = {"ASAN_OPTIONS": "detect_leaks=0:abort_on_error=0:exitcode=99:allocator_ma
 HOSTS = os.path.join(ROOT, "corpus", "C14", "hosts.txt")
 RESOLV = os.path.join(ROOT, "corpus", "C14", "resolv.conf")
 ALIASES = os.path.join(ROOT, "corpus", "C14", "hostaliases.txt")
+HOSTS2 = os.path.join(ROOT, "corpus", "C14", "hosts-merge.txt")
 FRESH_TOKEN = 900
 
 
@@ -127,6 +128,23 @@ def family(rng, tier):
     add("ghba-hosts", "servers=1 lookups=fb hosts=%s" % HOSTS, "ghba 1 10.9.8.7")
     add("gni", "servers=1", "gni 1 10.1.2.3 80 0x0;rspall an=PTR:ptr.%s;run;gni 2 10.1.2.3 53 0x8" % m)
 
+    # ---- IP literals (fake_addrinfo), localhost rule, numeric services, NULL name ----
+    add("gai-literals", "servers=1",
+        "gai 1 10.1.2.3 4 0x80;gai 2 10.1.2.3 0 0x81 http;gai 3 fd00::5 6 0x81 443;gai 4 fd00::5 0 0x80;"
+        "gai 5 10.1.2.3 6 0x80;gai 6 ::ffff:1.2.3.4 0 0x81;gai 7 10.1.2.3 0 0x89 8080 1;gai 8 1.2.3 4 0x80;rspall rcode=3;run",
+        quick=True)
+    add("ghbn-literals", "servers=1", "ghbn 1 10.1.2.3 4;ghbn 2 fd00::5 6;ghbn 3 fd00::5 0;ghbn 4 10.1.2.3 0;ghbn 5 10.1.2.3 6",
+        quick=True)
+    add("gai-localhost", "servers=1 lookups=b",
+        "gai 1 localhost 0 0x80;gai 2 foo.localhost 4 0x81 http;ghbn 3 localhost 6;gai 4 localhost 6 0x80 53")
+    add("gai-localhost-hosts", "servers=1 lookups=bf hosts=%s" % HOSTS,
+        "gai 1 localhost 0 0x81;ghbn 2 localhost 4;gai 3 ip6-localhost 6 0x80")
+    add("gai-service-forms", "servers=1",
+        # (a NULL name is not used: ares_getaddrinfo(channel, NULL, ..) dereferences it in
+        #  fake_addrinfo - an API-robustness matter, not an allocation one)
+        "gai 1 10.1.2.3 0 0x84 http;gai 2 %s 4 0x80 8080 1;gai 3 %s 4 0x88 99999;gai 4 %s 4 0x80 nosuchservice;"
+        "gai 5 %s 4 0x88 53 2;rspall an=A:1.2.3.4;run" % (lg, a, a, m))
+
     # ---- cache ----
     add("cache-hit", "servers=1 qcachettl=3600",
         "query 1 %s IN A;rspall an=A:1.2.3.4:100;run;adv 40000;query 2 %s IN A;oquery 3 %s IN A;adv 100000;query 4 %s IN A;rspall an=A:1.2.3.4:100;run" % (m, m, m, m),
@@ -182,6 +200,9 @@ def family(rng, tier):
         "gni 4 10.1.2.3 25 0x104;rspall rcode=3;run;rspall rcode=3;run" % (a, a), quick=(tier != "quick"))
     add("ghbn-cname-chain", "servers=1",
         "ghbn 1 www.%s 4;rspall an=CNAME:c1.%s+CNAME:c2.%s@c1.%s+A:1.2.3.4@c2.%s+A:1.2.3.5@c2.%s;run" % (m, m, m, m, m, m))
+    add("hosts-merge-lines", "servers=1 lookups=fb hosts=%s" % HOSTS2,
+        "gai 1 multi.example 0 0x80;ghbn 2 multi.example 4;ghbn 3 multi.example 6;ghba 4 10.7.7.2;ghba 5 fd00::72;"
+        "gai 6 other.example 0 0x81;gai 7 multi 4 0x80", quick=True)
     add("hosts-all-apis", "servers=1 lookups=f hosts=%s" % HOSTS,
         "gai 1 filehost.example 0 0x82 http;ghbn 2 alias1.example 4;ghbn 3 v6only.example 6;ghba 4 10.9.8.7;ghba 5 fd00::8;"
         "gni 6 10.9.8.8 80 0x300;gai 7 localhost 0 0x80;gai 8 missing.example 0 0x80")
@@ -230,7 +251,7 @@ def corpus_scenarios():
                 continue
             parts = line.split("|", 2)
             if len(parts) == 3:
-                cfg = parts[1].replace("@HOSTS@", HOSTS).replace("@RESOLV@", RESOLV).replace("@ALIASES@", ALIASES)
+                cfg = parts[1].replace("@HOSTS@", HOSTS).replace("@RESOLV@", RESOLV).replace("@ALIASES@", ALIASES).replace("@HOSTS2@", HOSTS2)
                 out.append(("corpus-" + parts[0], cfg, parts[2], True))
     return out
 
@@ -325,7 +346,24 @@ def run_baselines(exe, scen, workdir):
     env = dict(os.environ)
     env.update(vlib.SAN_ENV)
     env.update(ENV)
-    rc, out, err = vlib.sh([exe, casefile, "0"], timeout=300, env=env)
+    # a baseline that crashes (sanitizer abort) must not take the following ones with it
+    out = ""
+    start = 0
+    rc = 0
+    err = ""
+    while start < len(scen):
+        rc, o, err = vlib.sh([exe, casefile, str(start)], timeout=300, env=env)
+        out += o
+        if rc == 0:
+            break
+        last = start
+        for line in o.split("\n"):
+            m = re.match(r"^BEGIN (\d+)", line)
+            if m:
+                last = int(m.group(1))
+        # drop the partial log of the crashed case
+        out = "\n".join(l for l in out.split("\n") if not l.startswith("%d " % last))
+        start = last + 1
     os.unlink(casefile)
     per = {}
     for line in out.split("\n"):
